@@ -697,6 +697,13 @@ func controlDeps(fn *ssa.Function) *cdInfo {
 			preds[exit] = append(preds[exit], b.Index)
 		}
 	}
+	// `for { …; if bad { …; return }; … }`: a loop that is left only through returns. Without more, its return arms
+	// post-dominate the whole loop (they are the only way to the exit) and would count as unconditional. Such a
+	// loop is treated as possibly running forever: a virtual edge from its header to the exit.
+	for _, h := range endlessLoopHeaders(fn) {
+		succs[h.Index] = append(succs[h.Index], exit)
+		preds[exit] = append(preds[exit], h.Index)
+	}
 	// blocks that cannot reach exit (infinite loops): connect them
 	{
 		st := []int{exit}
@@ -1627,4 +1634,59 @@ func retVal(ret *ssa.Return, i int) ssa.Value {
 		return last
 	}
 	return r
+}
+
+// endlessLoopHeaders lists the headers of loops whose every exit edge leads
+// straight (within three blocks, without rejoining other code) to a return or
+// panic: loops written as `for { … }` that end only by returning.
+func endlessLoopHeaders(fn *ssa.Function) []*ssa.BasicBlock {
+	var out []*ssa.BasicBlock
+	for _, h := range fn.Blocks {
+		if !isLoopHeader(h) {
+			continue
+		}
+		// natural loop body: blocks that reach a back edge source without passing h
+		body := map[*ssa.BasicBlock]bool{h: true}
+		var st []*ssa.BasicBlock
+		for _, p := range h.Preds {
+			if h.Dominates(p) && !body[p] {
+				body[p] = true
+				st = append(st, p)
+			}
+		}
+		for len(st) > 0 {
+			x := st[len(st)-1]
+			st = st[:len(st)-1]
+			for _, p := range x.Preds {
+				if !body[p] {
+					body[p] = true
+					st = append(st, p)
+				}
+			}
+		}
+		endless := true
+		nExit := 0
+		for b := range body {
+			for _, s := range b.Succs {
+				if body[s] {
+					continue
+				}
+				nExit++
+				// the exit target belongs to the loop's return arms only
+				onlyFromLoop := true
+				for _, p := range s.Preds {
+					if !body[p] {
+						onlyFromLoop = false
+					}
+				}
+				if !onlyFromLoop || !leadsToReturn(s, 3) {
+					endless = false
+				}
+			}
+		}
+		if endless && nExit > 0 {
+			out = append(out, h)
+		}
+	}
+	return out
 }
